@@ -25,14 +25,25 @@ theorem standalone_eq_leaf_string (canon : String → Option String) (ci : Optio
   apply valueToHash_unfold
   simp [anyToString, hd]
 
-/-- integers given as JSON numbers (float64 with canonical spelling `c`) or in any other spelling denoting the
-    same integer as the lexical form -/
+/-- JSON numbers, every datatype: the dataset spells the number `numberLex dt c w` (json-gold objectToRDF; checked
+    against the real conversion by the correspondence), and the standalone API converts the float64 with the same
+    function (float64ToString), so the two hashes agree with no side condition. Before the repair of D17 this needed
+    the hypothesis `intFromStr c = intFromStr lit`, which is false for whole numbers of more than 16 digits, and had
+    no counterpart at all for non-numeric datatypes. -/
+theorem standalone_eq_leaf_number (canon : String → Option String) (ci : Option String) (h : Hasher) (dt c : String)
+    (w : Option Int) : valueToHash canon ci h dt (.f64 c w) = leaf canon h dt (numberLex dt c w) := by
+  apply valueToHash_unfold
+  unfold anyToString
+  split <;> rfl
+
+/-- integers given as JSON numbers in any spelling denoting the same integer as the lexical form -/
 theorem standalone_eq_leaf_int (canon : String → Option String) (ci : Option String) (h : Hasher) (dt lit c : String)
-    (hdt : isIntType dt = true) (hnb : dt ≠ tBoolean) (hnd : dt ≠ tDouble) (hsame : intFromStr c = intFromStr lit) :
-    valueToHash canon ci h dt (.f64 c) = leaf canon h dt lit := by
-  rw [valueToHash_unfold canon ci h dt (.f64 c) c (by simp [anyToString, hnd])]
+    (w : Option Int)
+    (hdt : isIntType dt = true) (hnb : dt ≠ tBoolean) (hsame : intFromStr (numberLex dt c w) = intFromStr lit) :
+    valueToHash canon ci h dt (.f64 c w) = leaf canon h dt lit := by
+  rw [standalone_eq_leaf_number]
   unfold leaf
-  rw [C04.spelling_indep canon dt c lit h.prime hdt hnb hsame]
+  rw [C04.spelling_indep canon dt _ lit h.prime hdt hnb hsame]
 
 /-- booleans given as JSON booleans -/
 theorem standalone_eq_leaf_bool (canon : String → Option String) (ci : Option String) (h : Hasher) (b : Bool) :
@@ -43,17 +54,26 @@ theorem standalone_eq_leaf_bool (canon : String → Option String) (ci : Option 
 
 /-- booleans given as 0/1 numbers (canonical double spellings "0.0E0"/"1.0E0") hash like false/true -/
 theorem standalone_bool_01 (canon : String → Option String) (ci : Option String) (h : Hasher) (b : Bool) :
-    valueToHash canon ci h tBoolean (.f64 (if b then "1.0E0" else "0.0E0")) = leaf canon h tBoolean (if b then "true" else "false") := by
+    valueToHash canon ci h tBoolean (.f64 (if b then "1.0E0" else "0.0E0") (some (if b then 1 else 0))) =
+      leaf canon h tBoolean (if b then "true" else "false") := by
+  rw [standalone_eq_leaf_number]
   have hd : tBoolean ≠ tDouble := by decide
-  rw [valueToHash_unfold canon ci h tBoolean _ _ (by simp [anyToString, hd]; rfl)]
-  cases b <;> simp [leaf, convert]
+  have h1 : toString (1 : Int) = "1" := by decide
+  have h0 : toString (0 : Int) = "0" := by decide
+  cases b
+  · have : numberLex tBoolean "0.0E0" (some 0) = "0" := by simp [numberLex, hd, h0]
+    simp [this, leaf, convert]
+  · have : numberLex tBoolean "1.0E0" (some 1) = "1" := by simp [numberLex, hd, h1]
+    simp [this, leaf, convert]
 
 /-- doubles: the leaf holds the hash of the canonical form; a float64 raw value hashes to it, given that the
     canonical form is a fixed point of canonicalisation (assumption on the oracle parameter) -/
 theorem standalone_eq_leaf_double (canon : String → Option String) (ci : Option String) (h : Hasher) (lit c : String)
-    (hc : canon lit = some c) (hidem : canon c = some c) :
-    valueToHash canon ci h tDouble (.f64 c) = leaf canon h tDouble lit := by
-  rw [valueToHash_unfold canon ci h tDouble (.f64 c) c (by simp [anyToString])]
+    (hc : canon lit = some c) (hidem : canon c = some c)
+    (w : Option Int) : valueToHash canon ci h tDouble (.f64 c w) = leaf canon h tDouble lit := by
+  rw [standalone_eq_leaf_number]
+  have : numberLex tDouble c w = c := by simp [numberLex]
+  rw [this]
   unfold leaf
   rw [C04.double_enc canon lit c h.prime hc, C04.double_enc canon c c h.prime hidem]
 
